@@ -239,8 +239,15 @@ func genTie(rt *rapid.T) *C12Case {
 	return c
 }
 
-func TestC18Ties(t *testing.T) {
-	r := vkit.Start(t, "C18")
+func TestC18Ties(t *testing.T) { tiesTest(t, "C18") }
+
+// TestC12Ties: the same coincidence cases judged for C12 (every transaction completes exactly
+// once - with the response or an error - also when response, timeout, write error and Close meet).
+func TestC12Ties(t *testing.T) { tiesTest(t, "C12") }
+
+func tiesTest(t *testing.T, id string) {
+	t.Helper()
+	r := vkit.Start(t, id)
 	defer r.Finish()
 	r.Assume("coincidence mode: same-instant events run on separate goroutines in real parallel; outcomes are judged order-insensitively (returns once, right response or error, no hang, no panic, empty table)")
 	do := func(c *C12Case, sample string) (string, string) {
@@ -251,7 +258,7 @@ func TestC18Ties(t *testing.T) {
 			r.Sample(sample, func() any { return c })
 		}
 		res := runC12(t, c)
-		if res.kind != "" && r.IsKnown("C18."+res.kind) {
+		if res.kind != "" && r.IsKnown(id+"."+res.kind) {
 			return "", ""
 		}
 
@@ -278,7 +285,7 @@ func TestC18Ties(t *testing.T) {
 		kind, msg := do(c, "ties")
 		if kind != "" {
 			r.NoteFail(kind, msg, c)
-			rt.Fatalf("C18 %s", kind)
+			rt.Fatalf("%s %s", id, kind)
 		}
 	})
 }
